@@ -13,6 +13,8 @@ func init() {
 		NotDecided:  "NOT APPLICABLE PART: 'for every uint64 append/read/size agree', zig-zag bijectivity and byte-length classes, tag round trip for all indexes quantify over 2^64 runtime values of pure bit arithmetic; deciding them statically needs bit-precise symbolic reasoning (a solver) or evaluation, both outside the static-analysis family.",
 		Assumptions: []string{"A1", "A2", "A3", "A5"},
 		Run: func(c *Ctx) {
+			// round 11: an empty counted field is complete
+			ruleCountZero(c)
 			B := decodeBound(c.P)
 			B.obligations(c, boundOpts{prop: "C18", onlyTainted: true, progress: true, alloc: true, contracts: true,
 				filter: func(f *ssa.Function) bool { return strings.HasPrefix(ssaFuncName(f), "plenccore.") }})
@@ -58,6 +60,10 @@ func init() {
 		NotDecided:  "That a shared index receives the same value in S and S' (value-level); framing agreement between each codec's writer and Skip's grammar is checked under C05/C02 (S.skip).",
 		Assumptions: []string{"A1", "A2", "A3", "A4", "A5", "A6"},
 		Run: func(c *Ctx) {
+			// round 11: holes in the index space, an emptied map value, an empty counted field at the end of the data
+			ruleIndexEnds(c)
+			ruleMapSlot(c)
+			ruleCountZero(c)
 			B := decodeBound(c.P)
 			ruleSkipExhaustive(c)
 			B.obligations(c, boundOpts{prop: "C03", onlyTainted: true, progress: true, alloc: false, contracts: true,
@@ -71,7 +77,7 @@ func init() {
 				}})
 			ruleSkipAdvance(c, B)
 			ruleTightGuards(c, B, nil)
-			c.Floor("X.tightguard", 20)
+			c.Floor("X.tightguard", 22)
 			ruleFullScan(c)
 			ruleLookupStateless(c, []string{"plenccodec.StructCodec.Read", "plenccodec.Descriptor.readAsStruct"})
 			ruleStructUntouched(c)
